@@ -843,11 +843,18 @@ func (x *Ctx) unescapeKeyShapeIn(fn *ssa.Function, fieldname ssa.Value) (string,
 					break
 				}
 				if iff, ok := dom.Instrs[len(dom.Instrs)-1].(*ssa.If); ok {
-					if be, ok := iff.Cond.(*ssa.BinOp); ok && be.Op == token.EQL {
+					// fieldname[i] == '\\' on the true edge, or fieldname[i] != '\\' on the false edge (`if c != '\\' { continue }`)
+					if be, ok := iff.Cond.(*ssa.BinOp); ok && (be.Op == token.EQL || be.Op == token.NEQ) {
 						if k, ok := constBig(be.Y); ok && k.Int64() == '\\' {
 							if ld, ok := be.X.(*ssa.UnOp); ok {
 								if ia, ok := ld.X.(*ssa.IndexAddr); ok && ia.X == ssa.Value(fieldname) && ia.Index == idx {
-									guard = true
+									edge := 0
+									if be.Op == token.NEQ {
+										edge = 1
+									}
+									if sc := dom.Succs[edge]; (sc == d || sc.Dominates(d)) && len(sc.Preds) == 1 {
+										guard = true
+									}
 								}
 							}
 						}
